@@ -1,6 +1,7 @@
 import typing
 from ast import *
 
+import oneliner.utils as utils
 from oneliner.namespaces import Namespace
 
 __all__ = [
@@ -101,6 +102,11 @@ class PendingComp(PendingExprGeneric[_CompNode]):
         self.target_names = set()
 
         for comp in self.node.generators:
+            if comp.is_async:
+                raise RuntimeError(
+                    utils.ast_debug_info(node)
+                    + "Unable to convert asynchronous comprehension"
+                )
             self.get_comp_target_names(comp.target)
 
         self.nsp.comp_stack.append(self)
@@ -136,6 +142,11 @@ class ExpressionTransformer:
             return PendingName(node, self.nsp)
         elif isinstance(node, (ListComp, SetComp, DictComp, GeneratorExp)):
             return PendingComp(node, self.nsp)
+        elif isinstance(node, (Yield, YieldFrom, Await)):
+            raise RuntimeError(
+                utils.ast_debug_info(node)
+                + f"Unable to convert node '{type(node).__name__}'"
+            )
         else:
             return PendingExpr(node)
 
